@@ -473,6 +473,14 @@ def run(replay=None):
                 ('seg-unknown-hrp-length-91', 'bc' + 'x' * 29, [1] + d5(rb(32)), True),
                 ('seg-unknown-hrp-length-91-v0', 'tb' + 'y' * 29, [0] + d5(rb(32)), False),
                 ('seg-unknown-hrp-data-6', 'bcx', [], True)]
+        # every non-zero pattern of the padding bits behind a program of each residue class of lengths (BIP173: "any
+        # padding must be zero"): 32 and 2 bytes leave four padding bits, 4 bytes three, 21 bytes two, 3 and 23 bytes one
+        for wv, n, hrp in ((0, 32, 'bc'), (1, 32, 'bc'), (1, 32, 'tb'), (16, 2, 'bc'), (2, 4, 'bc'), (1, 21, 'bc'),
+                           (3, 3, 'tb'), (1, 23, 'bc'), (2, 39, 'bc')):
+            g = d5(rb(n))
+            nb = len(g) * 5 - n * 8
+            for pad in range(1, 1 << nb):
+                raws.append(('seg-padding-bits-%d-of-%d-len%d' % (pad, nb, n), hrp, [wv] + g[:-1] + [g[-1] | pad], wv != 0))
         for tag, hrp, data, m in raws:
             bad.append((('addr', tag), {'k': 'b32raw', 'hrp': codes(hrp), 'data': data, 'm': m}))
         built = common.tlc_eval('ChecksumEval', [r for _, r in gen + bad], procs=8)
